@@ -19,7 +19,9 @@ DEFAULT_PRIORITY = "P3"
 WORDS = ["alpha", "Beta", "x9", "2024", "a_b", "it's", "50%", "e=mc2", "(paren)", "word,", "end.", "a-b", "x/y", "k:v", "q&a", "semi;", "wow!", "[x]", "*star*", "~tilde", "<lt", ">gt",
          "#area1", "@home", "%bob", "+proj", "[[page]]", "[[dir/page#anc]]", "[#gid]", "[@rid]", "[^lid]", "((embed))", "key::value", "due::2024-03-13", "n::42", "[type:: awesome note]",
          "https://example.com/a/b", "http://x.org", "'quoted", "\"dq\"", "'#notag'", "#t1#t2", "foo#bar", "1230", "P5", "o", "x", "240510", "2024-01-01", "240510#0K", "[240510#0K]", "-", "--", "#", "@"]
-LOOKALIKES = ["o", "x", "P5", "1230", "2024-01-01", "240510", "240510#0K", "-", "~", "<", ">", "P0"]
+LOOKALIKES = ["o", "x", "P5", "1230", "2024-01-01", "240510", "240510#0K", "-", "~", "<", ">", "P0",
+              # date-shaped words that are no calendar days are words (also as the first word of an item)
+              "2023-02-29", "2024-04-31", "2024-13-01", "2024-00-10"]
 NON_ID_FIRST = ["(", "[#gid]", "[@rid]", "[240101#01]", "*", "-", "#", "~x", "=", "&"]   # words that produce no `id` event
 
 
